@@ -23,6 +23,6 @@ func (d *DefaultServerDispatcher) VerifTimeoutToken(clientID string) {
 	d.mutex.RLock()
 	defer d.mutex.RUnlock()
 	if d.running {
-		d.timerC <- clientID
+		d.timerC <- timeoutToken{clientID: clientID}
 	}
 }
